@@ -1,2 +1,14 @@
+-- root of the library: every model, lemma and property file (so that `lake build VecModel` checks all proofs)
 import VecModel.Model.Basic
 import VecModel.Model.BPE
+import VecModel.Model.Sparse
+import VecModel.Model.Heap
+import VecModel.Model.PyInterp
+import VecModel.Lemmas.BPE
+import VecModel.Lemmas.Sparse
+import VecModel.Lemmas.Heap
+import VecModel.Props.C01
+import VecModel.Props.C02
+import VecModel.Props.C09
+import VecModel.Props.C12
+import VecModel.Props.C13
